@@ -440,3 +440,80 @@ def run(ctx):
     # imports keep resolving to the module they name (shared with C12): an accepted module must end in a resolved model
     from .c12 import r10 as name_is_an_alternative
     name_is_an_alternative(ctx, rule="C07.R7")
+    r8(ctx)
+
+
+def r8(ctx, rule="C07.R8"):
+    ctx.rule(rule, "the parsed `,...` of an INTEGER constraint reaches every Range the parser returns: in the token parser of INTEGER "
+                   "(asn/integer.rs try_from) every Range value that is built after the extension marker was looked for - aggregate or "
+                   "constructor call - takes its third field from that decision (`extensible`); a constructor without the flag "
+                   "(`Range::none()`) on the branch that normalises `(0..MAX, ...)` turns an extensible INTEGER into a plain one")
+    P = ctx.program()
+    bs = [b for b in P.lib_bodies("asn1rs_model") if b.name == "try_from" and b.file.endswith("asn/integer.rs") and b.def_kind == "AssocFn"
+          and "::promoted[" not in b.path and "Integer<" in (b.impl_self_ty or "")]
+    if len(bs) != 1:
+        ctx.fail(rule, "anchor-lost:Integer::try_from", "matched %d bodies" % len(bs))
+        return
+    b = bs[0]
+    flags = [d["pl"]["l"] for d in b.raw["debug"] if d.get("name") == "extensible" and d.get("pl") and not d["pl"]["p"] and not d.get("inlined_from")]
+    if len(flags) != 1:
+        ctx.fail(rule, "anchor-lost:extensible", "the parser has %d locals named `extensible`" % len(flags), "%s:%d" % (b.file, b.line))
+        return
+    L = flags[0]
+    defs = [d for d in b.defs.get(L, ()) if d[2] in ("assign", "call")]
+    region = set()
+    for d in defs:
+        region |= b.reach_from(d[0])
+    region -= {d[0] for d in defs}
+
+    def is_flag(op, depth=0):
+        if not isinstance(op, dict) or op.get("k") not in ("copy", "move") or op["pl"]["p"] or depth > 4:
+            return False
+        l = op["pl"]["l"]
+        if l == L:
+            return True
+        ds = b.defs.get(l, ())
+        return len(ds) == 1 and ds[0][2] == "assign" and ds[0][3]["k"] == "use" and is_flag(ds[0][3]["op"], depth + 1)
+    n = 0
+    for bb in sorted(region):
+        for st in b.blocks[bb]["stmts"]:
+            rv = st.get("rv") or {}
+            if st["k"] == "assign" and rv.get("k") == "agg" and (rv.get("adt") or "").endswith("range::Range") and len(rv.get("ops", ())) == 3:
+                n += 1
+                key = "Integer::try_from#Range#%d" % n
+                if is_flag(rv["ops"][2]):
+                    ctx.ok(rule, key, {"at": span_loc(st["sp"]), "marker": "extensible"})
+                else:
+                    ctx.fail(rule, "Integer::try_from#Range-without-parsed-marker", "a Range is built at %s whose extension marker is not the "
+                                                                                      "parsed one" % span_loc(st["sp"]), span_loc(st["sp"]))
+        t = b.blocks[bb]["term"]
+        if t and t["k"] == "call" and "range::Range<" in (t.get("dty") or "") and not (t.get("dty") or "").startswith(("&", "std::option", "std::result")):
+            full = ((t["func"].get("fn") or {}).get("full") or "")
+            name = full.split("::")[-1]
+            n += 1
+            if name == "with_extensible" and len(t["args"]) == 2 and is_flag(t["args"][1]):
+                ctx.ok(rule, "Integer::try_from#Range#%d" % n, {"at": span_loc(t["sp"]), "marker": "with_extensible(extensible)"})
+            elif name in ("with_extensible",):
+                ctx.fail(rule, "Integer::try_from#Range-without-parsed-marker", "with_extensible is called with something else than the parsed "
+                                                                                  "marker at %s" % span_loc(t["sp"]), span_loc(t["sp"]))
+            elif any(b.blocks[x]["term"] and b.blocks[x]["term"]["k"] == "call" and
+                     ((b.blocks[x]["term"]["func"].get("fn") or {}).get("full") or "").endswith("::with_extensible")
+                     and is_flag(b.blocks[x]["term"]["args"][1]) and is_flag_src(b, b.blocks[x]["term"]["args"][0], t["dest"])
+                     for x in b.reach_from(t.get("t")) if t.get("t") is not None):
+                ctx.ok(rule, "Integer::try_from#Range#%d" % n, {"at": span_loc(t["sp"]), "marker": "passed on to with_extensible(extensible)"})
+            else:
+                ctx.fail(rule, "Integer::try_from#Range-without-parsed-marker", "%s at %s builds a Range after the `,...` was looked for without "
+                                                                                  "the parsed marker: `INTEGER (0..MAX, ...)` is parsed as a plain "
+                                                                                  "INTEGER" % (X.short(full), span_loc(t["sp"])), span_loc(t["sp"]))
+    ctx.floor(rule, n, rule + ".ranges")
+
+
+def is_flag_src(b, op, dest):
+    """is the operand a copy / move of the place `dest` (the Range just constructed)?"""
+    if not isinstance(op, dict) or op.get("k") not in ("copy", "move") or op["pl"]["p"]:
+        return False
+    l = op["pl"]["l"]
+    if l == dest["l"]:
+        return True
+    ds = b.defs.get(l, ())
+    return len(ds) == 1 and ds[0][2] == "assign" and ds[0][3]["k"] == "use" and is_flag_src(b, ds[0][3]["op"], dest)
